@@ -210,6 +210,108 @@ pub fn fx_decode(mut idx: u64) -> Option<Gen> {
     Some(Gen { prog, family: "FX", inputs: 1, ops, ft: None, text: None })
 }
 
+// ================================================================== FP: operator precedence and associativity (printed without parentheses)
+
+const FP_LEAVES: [&str; 4] = ["x", "0.5", "2.0", "3.0"];
+fn fp_leaf(i: usize) -> E {
+    match i {
+        0 => var(DSP_IN),
+        1 => num(0.5),
+        2 => num(2.0),
+        _ => num(3.0),
+    }
+}
+pub fn fp_count() -> u64 {
+    let b = BINOPS.len() as u64;
+    b * b * 64 + b * 16 * 3
+}
+fn fp_prec(op: &str) -> (u8, bool) {
+    // documented in parser/ebnf.md: (precedence, right associative)
+    match op {
+        "||" => (2, false),
+        "&&" => (3, false),
+        "==" | "!=" => (5, false),
+        "<" | "<=" | ">" | ">=" => (6, false),
+        "+" | "-" => (7, false),
+        "*" | "/" | "%" => (8, false),
+        "^" => (9, true),
+        _ => unreachable!(),
+    }
+}
+#[derive(Clone)]
+enum Tok {
+    Atom(E),
+    Neg,
+    Op(&'static str),
+}
+fn fp_parse(toks: &[Tok], pos: &mut usize, min: u8) -> E {
+    // unary minus binds tighter than every binary operator (UnaryExpr ::= { "-" } DotExpr)
+    let mut lhs = match &toks[*pos] {
+        Tok::Neg => {
+            *pos += 1;
+            let Tok::Atom(a) = &toks[*pos] else { unreachable!() };
+            *pos += 1;
+            E::Neg(Box::new(a.clone()))
+        }
+        Tok::Atom(a) => {
+            *pos += 1;
+            a.clone()
+        }
+        Tok::Op(_) => unreachable!(),
+    };
+    while *pos < toks.len() {
+        let Tok::Op(op) = &toks[*pos] else { break };
+        let (p, right) = fp_prec(op);
+        if p < min {
+            break;
+        }
+        *pos += 1;
+        let rhs = fp_parse(toks, pos, if right { p } else { p + 1 });
+        lhs = bin(op, lhs, rhs);
+    }
+    lhs
+}
+pub fn fp_decode(idx: u64) -> Option<Gen> {
+    let b = BINOPS.len() as u64;
+    let (toks, text): (Vec<Tok>, String) = if idx < b * b * 64 {
+        let mut i = idx;
+        let l2 = (i % 4) as usize;
+        i /= 4;
+        let l1 = (i % 4) as usize;
+        i /= 4;
+        let l0 = (i % 4) as usize;
+        i /= 4;
+        let (o2, o1) = ((i % b) as usize, (i / b) as usize);
+        if BINOPS[o1] == "^" && BINOPS[o2] == "^" {
+            // `a ^ b ^ c`: parser/ebnf.md documents right associativity, the implementation groups to the left;
+            // the property statement does not say: outside the alphabet (noted in DESIGN 8.3)
+            return None;
+        }
+        (
+            vec![Tok::Atom(fp_leaf(l0)), Tok::Op(BINOPS[o1]), Tok::Atom(fp_leaf(l1)), Tok::Op(BINOPS[o2]), Tok::Atom(fp_leaf(l2))],
+            format!("{} {} {} {} {}", FP_LEAVES[l0], BINOPS[o1], FP_LEAVES[l1], BINOPS[o2], FP_LEAVES[l2]),
+        )
+    } else {
+        let mut i = idx - b * b * 64;
+        let variant = i % 3;
+        i /= 3;
+        let l1 = (i % 4) as usize;
+        i /= 4;
+        let l0 = (i % 4) as usize;
+        i /= 4;
+        let o = i as usize;
+        match variant {
+            0 => (vec![Tok::Neg, Tok::Atom(fp_leaf(l0)), Tok::Op(BINOPS[o]), Tok::Atom(fp_leaf(l1))], format!("-{} {} {}", FP_LEAVES[l0], BINOPS[o], FP_LEAVES[l1])),
+            1 => (vec![Tok::Atom(fp_leaf(l0)), Tok::Op(BINOPS[o]), Tok::Neg, Tok::Atom(fp_leaf(l1))], format!("{} {} -{}", FP_LEAVES[l0], BINOPS[o], FP_LEAVES[l1])),
+            _ => (vec![Tok::Neg, Tok::Atom(fp_leaf(l0)), Tok::Op(BINOPS[o]), Tok::Neg, Tok::Atom(fp_leaf(l1))], format!("-{} {} -{}", FP_LEAVES[l0], BINOPS[o], FP_LEAVES[l1])),
+        }
+    };
+    let mut pos = 0;
+    let e = fp_parse(&toks, &mut pos, 0);
+    let prog = Prog { items: vec![fdef("dsp", &[DSP_IN], e, Shape::F)] };
+    Some(Gen { prog, family: "FP", inputs: 1, ops: vec![text.clone()], ft: None, text: Some(format!("fn dsp(x) {{\n  {text}\n}}\n")) })
+}
+
 // ================================================================== FS: state layout
 
 /// helper menu: (name, definition, return shape, helpers it needs)
@@ -693,7 +795,7 @@ fn mkcounter() -> Item {
 
 // ================================================================== FA: aggregates
 
-const FA_RADIX: u64 = 21;
+const FA_RADIX: u64 = 26;
 pub fn fa_count(k: u32) -> u64 {
     seq_count(FA_RADIX, k)
 }
@@ -859,6 +961,20 @@ fn fa_stmt(c: &mut ACtx, o: u64) -> Option<()> {
             let s = c.sites.next();
             c.push(v, ATy::T2, call("pick", vec![var(&r)], s), "call pick(record with tuple field)".into());
         }
+        21..=25 => {
+            // default arguments and parameter packs
+            c.need("defa");
+            let v = c.fresh("p");
+            let s = c.sites.next();
+            let (e, what) = match o {
+                21 => (E::CallPack("defa".into(), vec![], s), "defa({..})"),
+                22 => (E::CallPack("defa".into(), vec![("q".into(), c.f(0)?)], s), "defa({q = a})"),
+                23 => (E::CallPack("defa".into(), vec![("p".into(), c.f(1)?)], s), "defa({p = a})"),
+                24 => (E::CallPack("defa".into(), vec![("q".into(), c.f(0)?), ("p".into(), c.f(2)?)], s), "defa({q = a, p = b})"),
+                _ => (call("defa", vec![c.f(0)?, c.f(2)?], s), "defa(a, b)"),
+            };
+            c.push(v, ATy::F, e, what.into());
+        }
         _ => unreachable!(),
     }
     Some(())
@@ -893,6 +1009,12 @@ pub fn fa_decode(idx: u64, k: u32) -> Option<Gen> {
             "sw" => items.push(fdef("sw", &["t:(float,float)"], E::Tuple(vec![E::Proj(Box::new(var("t")), 1), E::Proj(Box::new(var("t")), 0)]), t2())),
             "cnt2" => items.push(helper("cnt2", &mut hs)),
             "sumrec" => items.push(fdef("sumrec", &["r:{a:float,b:float}"], bin("-", E::Field(Box::new(var("r")), "a".into()), E::Field(Box::new(var("r")), "b".into())), Shape::F)),
+            "defa" => items.push(Item::Fn(FnDef {
+                name: "defa".into(),
+                params: vec![("p".into(), Some(num(2.0))), ("q".into(), Some(num(3.0)))],
+                body: bin("+", bin("*", var("p"), num(10.0)), bin("+", var("q"), E::SelfV)),
+                ret: Shape::F,
+            })),
             "pick" => items.push(fdef(
                 "pick",
                 &["r:{a:(float,float), b:float}"],
@@ -1198,6 +1320,7 @@ pub fn walk(e: &E, f: &mut dyn FnMut(&E)) {
             }
         }
         E::Record(fs) => fs.iter().for_each(|(_, a)| walk(a, f)),
+        E::CallPack(_, fs, _) => fs.iter().for_each(|(_, a)| walk(a, f)),
         _ => {}
     }
 }
@@ -1425,6 +1548,7 @@ fn map_atoms(e: &E, counter: &mut u64, target: u64, repl: &E) -> E {
         }
         E::Math(f, v) => E::Math(f, v.iter().map(|x| go(x)).collect()),
         E::Call(f, v, s) => E::Call(f.clone(), v.iter().map(|x| go(x)).collect(), *s),
+        E::CallPack(f, fs, s) => E::CallPack(f.clone(), fs.iter().map(|(k, v)| (k.clone(), go(v))).collect(), *s),
         E::If(c, t, el) => {
             let c2 = go(c);
             let t2 = go(t);
